@@ -41,6 +41,18 @@ def _extreme(theta, n, seed, d):
     return x
 
 
+def _negextreme(theta, n, seed, d):
+    """Hugely negative values only (a signed user loss then records losses <= -float32 max and none >= +max)."""
+    rng = np.random.default_rng(seed)
+    th = np.asarray(theta, dtype=float)
+    return -np.abs(rng.standard_normal((n, d))) * 1e200 * (1 + abs(th[0])) - 1e150
+
+
+def _tiny(theta, n, seed, d):
+    """Deterministic output of magnitude ~1e-10 (below numpy.allclose's absolute tolerance)."""
+    return _poly(theta, n, seed, d) * 1e-10 / (1.0 + float(np.max(np.abs(np.asarray(theta, dtype=float)))))
+
+
 def _scripted(theta, n, seed, d):
     """Series whose Minkowski-1 distance to the all-zero real series equals |theta[0]| exactly (value in slot 0)."""
     x = np.zeros((n, d))
@@ -50,7 +62,7 @@ def _scripted(theta, n, seed, d):
 
 _mod = sys.modules[__name__]
 MODELS = {}
-for _kind, _fn in (("gauss", _gauss), ("ar1", _ar1), ("poly", _poly), ("extreme", _extreme), ("scripted", _scripted)):
+for _kind, _fn in (("gauss", _gauss), ("ar1", _ar1), ("poly", _poly), ("extreme", _extreme), ("scripted", _scripted), ("tiny", _tiny), ("negextreme", _negextreme)):
     for _d in (1, 2, 3):
         def _make(fn=_fn, dd=_d):
             def model(theta, n, seed):
